@@ -92,6 +92,18 @@ func Spellings() []Input {
 			add("multi-line "+o+" around "+i, "\t"+fmt.Sprintf(o, "\n"+i+"\n"))
 		}
 	}
+	// siblings that touch: element names in every letter case (block names are matched case-sensitively by the
+	// generator), custom and foreign elements, next to an inline element, text or an expression
+	touching := []string{"<span>a</span>", "text", "{ x }", "<b>z</b>"}
+	elems := []string{"<div>b</div>", "<DIV>b</DIV>", "<dIV>b</dIV>", "<blockQuote>b</blockQuote>", "<fieldSet>b</fieldSet>", "<P>b</P>", "<LI>b</LI>", "<Span>b</Span>", "<SPAN>b</SPAN>",
+		"<my-el>b</my-el>", "<svg><path d=\"m\"></path></svg>", "<textArea>b</textArea>", "<PRE>b</PRE>", "<BR/>", "<Input/>", "<hR/>"}
+	for _, el := range elems {
+		for _, t := range touching {
+			for _, shape := range []string{"\t%s%s", "\t%[2]s%[1]s", "\t<div>%s%s</div>", "\t<div>\n\t\t%[2]s%[1]s\n\t</div>", "\t<p>%s%s %[1]s</p>"} {
+				add("touching siblings "+shape+" "+t+" "+el, fmt.Sprintf(shape, t, el))
+			}
+		}
+	}
 	exprs := []string{"x", " x ", "x // trailing", "x /* c */", "fmt.Sprintf(\"%s\",\n\t\tx)", "`raw\nstring`", "strings.Join(xs, \", \")", "xs...", "x...", " xs...  "}
 	for _, e := range exprs {
 		add("expression "+e, "\t<div>{ "+e+" }</div>")
@@ -294,7 +306,13 @@ func Classify(src string, tf parser.TemplateFile, formatted string) string {
 				case parser.Whitespace, parser.IfExpression, parser.ForExpression, parser.SwitchExpression:
 				default:
 					// children slot, HTML / Go comment, script and style elements, component calls, raw Go
-					if i+1 < len(nodes) || owner == "Element" {
+					// only where the line break is new: the node touches its next sibling (or the closing tag)
+					// on the same line; a node already followed by a line break is laid out the same way again
+					if i+1 < len(nodes) {
+						if ws, isWS := nodes[i+1].(parser.Whitespace); !isWS || !strings.Contains(ws.Value, "\n") {
+							untracked = true
+						}
+					} else if owner == "Element" {
 						untracked = true
 					}
 				}
